@@ -131,6 +131,12 @@ def specs(r):
                 qs.append((f"spec le {due} {t}", {"what": "never_early", "key": k, "t": t}))
             elif kind in ("E", "X", "C"):
                 prev_end = t
+    # limits and stop behave as in the threading scheduler: a job only disappears when it has no
+    # attempts remaining (budget used up / next due time past stop) - nobody deletes jobs here
+    if r["obs"] and "jobs" in r["obs"][-1]:
+        for k, v in r["obs"][-1]["jobs"].items():
+            if v[5] == 0:
+                qs.append((f"spec eq {v[4]} 0", {"what": "job unregistered although attempts remain (an occurrence within the window was dropped)", "key": k}))
     for ob in r["obs"]:
         if ob.get("task_errors"):
             qs.append(("spec eq 0 1", {"what": "a task ended with an exception", "errors": ob["task_errors"][:2]}))
